@@ -167,4 +167,8 @@ Definition rcase_spec (tbl : list param) (c : rcase) : bool :=
            end
   end.
 
-Definition table_bad_rows (tbl : list param) : nat * list nat := (length tbl, mismatches row_ok 0 tbl).
+Definition table_bad_rows (tbl : list param) : nat * list nat := (List.length tbl, mismatches row_ok 0 tbl).
+
+(* harness entry point: (number of cases, indices of the cases on which [f tbl] is false) *)
+Definition run_rcases (f : list param -> rcase -> bool) (tbl : list param) (cs : list rcase) : nat * list nat :=
+  (List.length cs, mismatches (f tbl) 0 cs).
